@@ -256,6 +256,13 @@ def run_yaml(case):
                     smp = case["samples"][next(i_ for i_, x_ in enumerate(areas) if x_ is a)]
                     d["ll_a"] = lonlat_samples(a, smp)
                     d["ll_b"] = lonlat_samples(b, smp)
+            # second cycle: the loaded object is dumped and loaded again
+            if d["kind"] == "area":
+                try:
+                    b2 = load_area_from_string(b.dump())
+                    d["cycle2"] = {k: v for k, v in describe(b2).items() if k in ("kind", "id", "description", "shape", "extent")}
+                except Exception as e2:
+                    d["cycle2"] = {"kind": "raise", "exc": type(e2).__name__, "msg": str(e2)[:120]}
             res.append(d)
         out["loaded"] = res
     except Exception as e:
